@@ -351,6 +351,7 @@ struct OrdRun<'a, C: OrdColl> {
     edge_classes: u32,
     removed_2child: bool,
     removed_any: bool,
+    dense: bool,
 }
 
 enum Step {
@@ -399,6 +400,7 @@ pub fn run_ord<C: OrdColl>(case: &Case, rc: &RunCfg) -> Outcome {
         edge_classes: 0,
         removed_2child: false,
         removed_any: false,
+        dense: case.get_i64("dense", if u <= 64 { 1 } else { 0 }) != 0,
     };
     for (i, op) in case.ops.iter().enumerate() {
         if r.out.failure.is_some() || r.out.blocked.is_some() {
@@ -448,11 +450,8 @@ impl<'a, C: OrdColl> OrdRun<'a, C> {
             CallErr::Injected => unreachable!(),
             CallErr::Budget => {
                 let msg = format!("{}: callback budget exceeded (non-terminating loop over user code?) in {}", C::NAME, what);
-                if self.rc.obs(10) {
-                    self.out.fail(10, "callback-budget", i, msg);
-                } else {
-                    self.out.blocked = Some(msg);
-                }
+                let pn = if self.rc.obs(10) { 10 } else { self.rc.observe.trailing_zeros() };
+                self.out.fail(pn, "callback-budget", i, msg);
             }
             CallErr::Panic(m) => {
                 let msg = format!("{}: panic in {}: {}", C::NAME, what, m);
@@ -461,7 +460,10 @@ impl<'a, C: OrdColl> OrdRun<'a, C> {
                 } else if let Some(pn) = observed_by.iter().find(|n| self.rc.obs(**n)) {
                     self.out.fail(*pn, "panic-in-observed-op", i, msg);
                 } else {
-                    self.out.blocked = Some(msg);
+                    // the in-contract history cannot be completed: a counterexample to any property
+                    // that quantifies over all histories (and, of course, to C10)
+                    let pn = self.rc.observe.trailing_zeros();
+                    self.out.fail(pn, "history-aborted", i, format!("{} (the in-contract history cannot be completed, so what the property promises for it is not delivered)", msg));
                 }
             }
         }
@@ -486,8 +488,11 @@ impl<'a, C: OrdColl> OrdRun<'a, C> {
             Err(m) => {
                 if self.rc.obs(2) {
                     self.out.fail(2, "links", i, format!("{}: {}", C::NAME, m));
+                } else if self.rc.obs(11) {
+                    self.out.fail(11, "links", i, format!("{}: {}", C::NAME, m));
                 } else {
-                    self.out.blocked = Some(format!("structure unreadable: {}", m));
+                    self.snap_on = false;
+                    self.out.class("structure_unreadable");
                 }
                 None
             }
@@ -516,7 +521,8 @@ impl<'a, C: OrdColl> OrdRun<'a, C> {
                     if self.rc.obs(11) {
                         self.out.fail(11, "links", i, format!("{}: after op #{}: {}", C::NAME, i, m));
                     } else {
-                        self.out.blocked = Some(format!("structure unreadable: {}", m));
+                        self.snap_on = false;
+                        self.out.class("structure_unreadable");
                     }
                     return None;
                 }
@@ -644,6 +650,42 @@ impl<'a, C: OrdColl> OrdRun<'a, C> {
 
     fn fmt_obs(obs: &(Option<i32>, Option<C::P>)) -> String {
         format!("(key {:?}, payload {:?})", obs.0, obs.1)
+    }
+
+    /// "in every reachable state and for every probe / handle": after a mutating operation run the
+    /// full observation battery of the observed property (small universes only)
+    fn dense_battery(&mut self, i: usize) -> bool {
+        if !self.dense || self.rc.inject.is_some() || self.rc.inject_all {
+            return true;
+        }
+        let pl = self.p_lookup;
+        if self.rc.obs(pl) && !self.sweep(i, pl, "sweep-after-mutation", "after a mutating operation") {
+            return false;
+        }
+        let list = !C::IS_TREE;
+        if (self.rc.obs(8) && !list) || (self.rc.obs(13) && list) {
+            for p in -1..=self.u {
+                for fam in [0u8, 2u8] {
+                    if !self.hread(i, p, fam) {
+                        return false;
+                    }
+                }
+            }
+        }
+        if C::IS_SET && ((self.rc.obs(9) && !list) || (self.rc.obs(13) && list)) {
+            let keys: Vec<i32> = self.model.keys().copied().collect();
+            for k in keys {
+                for dir in [true, false] {
+                    if !self.step_from(i, k, dir) {
+                        return false;
+                    }
+                }
+            }
+            if !self.walk_all(i) {
+                return false;
+            }
+        }
+        true
     }
 
     fn lookup_classes(&mut self) {
@@ -948,6 +990,9 @@ impl<'a, C: OrdColl> OrdRun<'a, C> {
                 }
             }
         }
+        if !self.dense_battery(i) {
+            return Step::Stop;
+        }
         Step::Continue
     }
 
@@ -1112,13 +1157,16 @@ impl<'a, C: OrdColl> OrdRun<'a, C> {
             return Step::Stop;
         }
         let pn = self.p_lookup;
-        if self.rc.obs(pn) && (!present || self.u <= 16) {
-            // deleting an absent key changes nothing; in small universes also sweep after real deletes
-            if !self.sweep(i, pn, if present { "sweep-after-delete" } else { "delete-absent-changed-something" }, if present { "after delete" } else { "after deleting an absent key" }) {
+        if self.rc.obs(pn) && !present {
+            // deleting an absent key changes nothing
+            if !self.sweep(i, pn, "delete-absent-changed-something", "after deleting an absent key") {
                 return Step::Stop;
             }
         }
         self.reacquire_held();
+        if !self.dense_battery(i) {
+            return Step::Stop;
+        }
         Step::Continue
     }
 
@@ -1245,6 +1293,9 @@ impl<'a, C: OrdColl> OrdRun<'a, C> {
         if self.out.failure.is_some() || self.out.blocked.is_some() {
             return Step::Stop;
         }
+        if !self.dense_battery(i) {
+            return Step::Stop;
+        }
         Step::Continue
     }
 
@@ -1367,6 +1418,9 @@ impl<'a, C: OrdColl> OrdRun<'a, C> {
         if self.rc.obs(pn) && !self.sweep(i, pn, "write-through-handle", "after writing through a handle") {
             return Step::Stop;
         }
+        if !self.dense_battery(i) {
+            return Step::Stop;
+        }
         Step::Continue
     }
 
@@ -1424,6 +1478,9 @@ impl<'a, C: OrdColl> OrdRun<'a, C> {
             return Step::Stop;
         }
         self.reacquire_held();
+        if !self.dense_battery(i) {
+            return Step::Stop;
+        }
         Step::Continue
     }
 
